@@ -403,3 +403,110 @@ def gen_trigger(rng, st, recorded, serial, fid):
         if want == "F34" or want in H.unsafe_ids(op, f):
             return op
     return None
+
+
+# ---------------------------------------------------------------------------------------------------
+# scripted family: a PMux whose inputs are related to each other (one input is the ancestor of another, inputs
+# addressed by rail or by name, 2-4 inputs), followed by edits aimed at the inputs and their ancestors.  Random
+# histories reach these shapes rarely; the PMux input bookkeeping (`pnames`: rename, re-link, de-duplication) lives here.
+
+def mux_family(rng, apply):
+    """drives `apply(op) -> step`; returns nothing.  Names/rails come from the usual pools so that collisions stay possible."""
+    names = list(H.NAMES)
+    rng.shuffle(names)
+    rails = list(H.RAILS)
+    rng.shuffle(rails)
+    serial = [0]
+
+    def comp(kind, name):
+        serial[0] += 1
+        return new_comp(kind, name, serial[0])
+
+    def nonload():
+        return rng.choice(["converter", "linreg", "pswitch", "rloss", "vloss"])
+
+    rail_of = {}
+
+    def addr(n):
+        r = rail_of.get(n, "")
+        return r if (r and rng.random() < 0.55) else n
+
+    def add(parent, kind, rail_p=0.6):
+        n = names.pop()
+        r = rails.pop() if (rails and kind not in H.LOADS and rng.random() < rail_p) else ""
+        s = apply({"op": "add_comp", "parent": parent, "comp": comp(kind, n), "group": "", "rail": r})
+        if s["outcome"] == "ok":
+            rail_of[n] = r
+            return n
+        return None
+
+    def live(step):
+        return [c[0] for c in step["st"]["comps"]]
+
+    s0 = None
+    # second source (sometimes)
+    srcs = []
+    if rng.random() < 0.7:
+        n = names.pop()
+        r = rails.pop() if rng.random() < 0.5 else ""
+        s = apply({"op": "add_source", "comp": comp("source", n), "group": "", "rail": r})
+        if s["outcome"] == "ok":
+            rail_of[n] = r
+            srcs.append(n)
+    root = None
+    return_state = {}
+    # the first source is whatever the run was initialised with: find it through a probe step
+    probe = apply({"op": "set_comp_phases", "name": "__nosuch__", "conf": {"names": []}})      # rejected: state unchanged
+    first = [c[0] for c in probe["st"]["comps"] if c[1] == "SOURCE" and c[0] not in srcs]
+    if not first:
+        return
+    root = first[0]
+    rail_of.setdefault(root, dict(probe["st"]["rails"] or []).get(root, ""))
+    P = add(addr(root), nonload(), rail_p=0.8)
+    if P is None:
+        return
+    X = add(addr(P), nonload())
+    if X is None:
+        return
+    Z = add(addr(X), nonload()) if rng.random() < 0.4 else None
+    pool = [P, X] + ([Z] if Z else []) + srcs + ([root] if rng.random() < 0.5 else [])
+    k = rng.randint(2, min(4, len(pool)))
+    ins = rng.sample(pool, k)
+    if X not in ins and rng.random() < 0.7:
+        ins[rng.randrange(len(ins))] = X
+    ins = list(dict.fromkeys(ins))
+    m = names.pop()
+    mr = rails.pop() if (rails and rng.random() < 0.3) else ""
+    s = apply({"op": "add_comp", "parent": [addr(i) for i in ins], "comp": comp("pmux", m), "group": "", "rail": mr})
+    if s["outcome"] != "ok":
+        return
+    rail_of[m] = mr
+    add(addr(m), rng.choice(list(H.LOADS)))
+    # edits aimed at the inputs and their ancestors
+    for _ in range(rng.randint(1, 3)):
+        cur = live(s)
+        targets = [t for t in ins + [P] if t in cur and t != root]
+        if not targets:
+            break
+        t = rng.choice(targets)
+        r = rng.random()
+        if r < 0.45:
+            op = {"op": "del_comp", "name": t, "del_childs": rng.random() < 0.3}
+        elif r < 0.8:
+            newname = t if rng.random() < 0.4 else (names.pop() if names else t)
+            kind = "source" if t in srcs else nonload()
+            nr = rng.choice(["", rail_of.get(t, ""), rails.pop() if rails else ""])
+            op = {"op": "change_comp", "name": t, "comp": comp(kind, newname), "group": "", "rail": nr}
+        else:
+            op = {"op": "del_comp", "name": addr(t), "del_childs": False}
+        s = apply(op)
+        if s["outcome"] == "ok":
+            if op["op"] == "change_comp":
+                rail_of.pop(t, None)
+                rail_of[op["comp"]["name"]] = op["rail"]
+                ins = [op["comp"]["name"] if i == t else i for i in ins]
+                if t == P:
+                    P = op["comp"]["name"]
+                srcs = [op["comp"]["name"] if i == t else i for i in srcs]
+        if s["wf"] or s["st"]["save_exc"]:
+            break
